@@ -74,7 +74,10 @@ Excluded(t) == \E i \in 1 .. Len(t) :
 \* long: the closing parenthesis is the first one at which the ")" seen so far outnumber the "(" by one.)
 BalAt(P, R, k) == Cardinality({j \in R : j <= k}) - Cardinality({j \in P \ R : j <= k})
 MatchIn(P, R) == LET C == {k \in R : BalAt(P, R, k) = 1} IN IF C = {} THEN 0 ELSE SetMin(C)
-ParenMatch(t, i) == MatchIn({k \in i .. Len(t) : t[k] = LPAR \/ t[k] = RPAR}, {k \in i .. Len(t) : t[k] = RPAR})
+MatchWin(t, i, w) == MatchIn({k \in i .. Min2(Len(t), i + w) : t[k] = LPAR \/ t[k] = RPAR}, {k \in i .. Min2(Len(t), i + w) : t[k] = RPAR})
+FirstNonZero(a, b) == IF a # 0 THEN a ELSE b          \* b is only evaluated when needed
+\* the balance at k depends only on the parentheses up to k, so a match found in a short window is THE match
+ParenMatch(t, i) == FirstNonZero(MatchWin(t, i, 40), FirstNonZero(MatchWin(t, i, 320), FirstNonZero(MatchWin(t, i, 2560), MatchWin(t, i, Len(t)))))
 \* first index k in i .. i+NameMax with t[k] = c, 0 if none  (C: names are at most NameMax characters)
 FindDelim(t, i, c) == LET ks == {k \in i .. Min2(Len(t), i + NameMax) : t[k] = c} IN IF ks = {} THEN 0 ELSE SetMin(ks)
 \* number of name characters starting at i (capped at NameMax)
